@@ -47,3 +47,23 @@ CHECKS['C12'] = dict(
                      quick=_c12_runs(40, 5, 1, 100, 4),
                      thorough=_c12_runs(40, 7, 2, 900, 5))],
 )
+
+
+def _c11_runs(nk, depth, sdepth, k, dl):
+    return [['--cmp', c, '--dtor', d, '--nkeys', nk, '--depth', depth, '--stateless', sdepth, '--k', k, '--deadline', dl]
+            for c in ('user', 'default') for d in (1, 0)]
+
+
+CHECKS['C11'] = dict(
+    title='ordered set (BST)',
+    rule='in-process BFS over insert/remove/find/traverse/iterator/clear histories on N keys against a sorted-set monitor; '
+         'dedup key = observed pre-order (tree shape) + identities + iterator position + last k ops, so every insertion order giving a '
+         'different tree is expanded; after every op: len, 3 traversals (in-order ascending, post-order consistent with the tree fixed by the pre-order), '
+         'find of every key, destructor log; 4 probe suffixes',
+    bounds=dict(quick='5 keys (user comparator: 2 identities for equal keys; default comparator: pointers up to 2^47 apart), BFS depth 9, stateless depth 4',
+                thorough='7 keys, BFS to fixpoint (k=2), stateless depth 5'),
+    assumptions=['set not mutated from outside while an iterator is live'],
+    parts=[seqx_part('bst', 'c11_bst', ['structs', 'utils'],
+                     quick=_c11_runs(5, 9, 4, 1, 100),
+                     thorough=_c11_runs(7, 40, 5, 2, 1500))],
+)
